@@ -380,16 +380,24 @@ Definition table_name (e : env) (s : schema) : rres str :=    (* named_schemas[.
 
 Definition wrap_union_r (o : ropts) (we re : env) (bs : list schema) (b : schema) (rb : option schema)
                         (result : pyval) : rres pyval :=
-  let inline_name := match rb with Some r => dict_name r | None => dict_name b end in
-  let ref_name := match rb with Some r => table_name re r | None => table_name we b end in
-  let pair (n : rres str) := let+ n := n in ROk (PTuple [PStr n; result]) in
-  let t := tag_of b in
-  if ret_named_override o && (count_named bs =? 1) then ROk result
-  else if ret_named o && in_named_types t then pair inline_name
-  else if ret_named o && negb (in_avro_types t) then pair ref_name
-  else if ret_rec_override o && (count_records bs =? 1) then ROk result
-  else if ret_rec o && (match t with TRecord => true | _ => false end) then pair inline_name
-  else if ret_rec o && negb (in_avro_types t) then pair ref_name
+  (* since fix 16a5a2c: the branch that was read and the matching reader branch are looked at through their definitions *)
+  let idx_def := deref1 we b in                                   (* named_schemas["writer"][idx_schema] for a name *)
+  let name_def : rres schema :=
+    match rb with
+    | None => ROk idx_def
+    | Some r => if is_dict r then ROk r
+                else match r with
+                     | SRef m => ROk (match lookup re m with Some d => d | None => idx_def end)   (* .get(name, idx_definition) *)
+                     | SUnion _ => RErrOther                                                     (* unhashable list *)
+                     | _ => ROk idx_def
+                     end
+    end in
+  let pair := let+ d := name_def in let+ n := dict_name d in ROk (PTuple [PStr n; result]) in
+  let t := tag_of idx_def in
+  if ret_named_override o && (count_named we bs =? 1) then ROk result
+  else if ret_named o && in_named_types t then pair
+  else if ret_rec_override o && (count_records we bs =? 1) then ROk result
+  else if ret_rec o && (match t with TRecord => true | _ => false end) then pair
   else ROk result.
 
 (** array / map block loop of the binary decoder, over [rres] *)
